@@ -15,6 +15,12 @@
 //!   cc  concurrency: 1–64 connections × pipelining depth 1–8, a nonce in the
 //!       path, the query, a header and the body of every request
 //!   ct  total handler entries vs. number of requests answered 200
+//!   tl  HTTPS server (`ServerBuilder::tls`), raw TCP + rustls clients that
+//!       connect in a known order and finish their handshakes in another:
+//!       some stall before their ClientHello or in mid-handshake while later
+//!       connections complete first (explicit sequencing, no sleeps); plus
+//!       sequential connections, keep-alive reuse and simultaneous threads.
+//!       The handler reports `rqctx.request.remote_addr()` with its nonce.
 
 #[path = "../extract_common.rs"]
 mod common;
@@ -708,6 +714,414 @@ fn emit(out: &mut Out, stream: &str, id: &mut u64, rq: &Req, a: Answer, delta: O
     g.status == 200
 }
 
+// ------------------------------------------------------------ TLS
+
+mod tls {
+    use super::*;
+    use std::io::{Read, Write};
+    use std::net::{SocketAddr, TcpStream};
+    use std::sync::Arc;
+
+    #[derive(Debug)]
+    struct AcceptAny;
+    impl rustls::client::danger::ServerCertVerifier for AcceptAny {
+        fn verify_server_cert(
+            &self,
+            _end_entity: &rustls::pki_types::CertificateDer<'_>,
+            _intermediates: &[rustls::pki_types::CertificateDer<'_>],
+            _server_name: &rustls::pki_types::ServerName<'_>,
+            _ocsp_response: &[u8],
+            _now: rustls::pki_types::UnixTime,
+        ) -> Result<rustls::client::danger::ServerCertVerified, rustls::Error> {
+            Ok(rustls::client::danger::ServerCertVerified::assertion())
+        }
+        fn verify_tls12_signature(
+            &self,
+            _message: &[u8],
+            _cert: &rustls::pki_types::CertificateDer<'_>,
+            _dss: &rustls::DigitallySignedStruct,
+        ) -> Result<rustls::client::danger::HandshakeSignatureValid, rustls::Error> {
+            Ok(rustls::client::danger::HandshakeSignatureValid::assertion())
+        }
+        fn verify_tls13_signature(
+            &self,
+            _message: &[u8],
+            _cert: &rustls::pki_types::CertificateDer<'_>,
+            _dss: &rustls::DigitallySignedStruct,
+        ) -> Result<rustls::client::danger::HandshakeSignatureValid, rustls::Error> {
+            Ok(rustls::client::danger::HandshakeSignatureValid::assertion())
+        }
+        fn supported_verify_schemes(&self) -> Vec<rustls::SignatureScheme> {
+            vec![
+                rustls::SignatureScheme::ECDSA_NISTP256_SHA256,
+                rustls::SignatureScheme::ECDSA_NISTP384_SHA384,
+                rustls::SignatureScheme::ED25519,
+                rustls::SignatureScheme::RSA_PSS_SHA256,
+                rustls::SignatureScheme::RSA_PKCS1_SHA256,
+            ]
+        }
+    }
+
+    pub fn client_config() -> Arc<rustls::ClientConfig> {
+        Arc::new(
+            rustls::ClientConfig::builder()
+                .dangerous()
+                .with_custom_certificate_verifier(Arc::new(AcceptAny))
+                .with_no_client_auth(),
+        )
+    }
+
+    /// Self-signed certificate for `localhost`: (certificate PEM, key PEM).
+    pub fn self_signed() -> (Vec<u8>, Vec<u8>) {
+        let key = rcgen::KeyPair::generate().expect("key pair");
+        let params = rcgen::CertificateParams::new(vec!["localhost".to_string()]).expect("params");
+        let cert = params.self_signed(&key).expect("self-signed");
+        (cert.pem().into_bytes(), key.serialize_pem().into_bytes())
+    }
+
+    /// How far a client goes right after its TCP connect.
+    #[derive(Clone, Copy, Debug, PartialEq)]
+    pub enum Stage {
+        /// nothing: the whole handshake happens when it is this client's turn
+        Plain,
+        /// TCP connected, no ClientHello yet
+        BeforeHello,
+        /// ClientHello sent, the server's flight not read
+        HelloSent,
+        /// ClientHello sent and the server's flight read; the client's Finished withheld
+        ServerFlightRead,
+    }
+
+    pub struct Client {
+        pub sock: TcpStream,
+        pub conn: Option<rustls::ClientConnection>,
+        pub local: SocketAddr,
+    }
+
+    impl Client {
+        pub fn connect(addr: SocketAddr) -> Option<Client> {
+            let sock = connect_long(addr).ok()?;
+            let local = sock.local_addr().ok()?;
+            Some(Client { sock, conn: None, local })
+        }
+        fn ensure_conn(&mut self, cfg: &Arc<rustls::ClientConfig>) {
+            if self.conn.is_none() {
+                let name = rustls::pki_types::ServerName::try_from("localhost").unwrap();
+                self.conn = Some(rustls::ClientConnection::new(cfg.clone(), name).expect("client connection"));
+            }
+        }
+        /// Go as far as `stage` says, and stop.
+        pub fn advance_to(&mut self, cfg: &Arc<rustls::ClientConfig>, stage: Stage) -> bool {
+            match stage {
+                Stage::Plain | Stage::BeforeHello => true,
+                Stage::HelloSent | Stage::ServerFlightRead => {
+                    self.ensure_conn(cfg);
+                    let conn = self.conn.as_mut().unwrap();
+                    while conn.wants_write() {
+                        if conn.write_tls(&mut self.sock).is_err() {
+                            return false;
+                        }
+                    }
+                    if stage == Stage::ServerFlightRead {
+                        // one read of the server's answer; whatever it makes the client
+                        // want to write stays unwritten
+                        match conn.read_tls(&mut self.sock) {
+                            Ok(n) if n > 0 => {
+                                if conn.process_new_packets().is_err() {
+                                    return false;
+                                }
+                            }
+                            _ => return false,
+                        }
+                    }
+                    true
+                }
+            }
+        }
+        /// Finish the handshake, send one request, read one answer.
+        pub fn request(&mut self, cfg: &Arc<rustls::ClientConfig>, wire: &[u8]) -> Option<RawResponse> {
+            self.ensure_conn(cfg);
+            let conn = self.conn.as_mut().unwrap();
+            while conn.is_handshaking() {
+                conn.complete_io(&mut self.sock).ok()?;
+            }
+            let mut tls = rustls::Stream::new(conn, &mut self.sock);
+            tls.write_all(wire).ok()?;
+            tls.flush().ok()?;
+            read_response(&mut tls)
+        }
+    }
+
+    /// One `Content-Length` response off any reader.
+    pub fn read_response<R: Read>(r: &mut R) -> Option<RawResponse> {
+        let mut buf: Vec<u8> = Vec::new();
+        let mut tmp = [0u8; 4096];
+        let head_end = loop {
+            if let Some(p) = buf.windows(4).position(|w| w == b"\r\n\r\n") {
+                break p;
+            }
+            let n = r.read(&mut tmp).ok()?;
+            if n == 0 {
+                return None;
+            }
+            buf.extend_from_slice(&tmp[..n]);
+        };
+        let head = String::from_utf8_lossy(&buf[..head_end]).to_string();
+        let mut resp = RawResponse::default();
+        let mut lines = head.split("\r\n");
+        let status_line = lines.next()?;
+        resp.status = status_line.split(' ').nth(1)?.parse().ok()?;
+        for l in lines {
+            let (n, v) = l.split_once(':')?;
+            resp.headers.push((n.to_ascii_lowercase(), v.trim().to_string()));
+        }
+        let len: usize = resp.header("content-length")?.parse().ok()?;
+        let mut body = buf[head_end + 4..].to_vec();
+        while body.len() < len {
+            let n = r.read(&mut tmp).ok()?;
+            if n == 0 {
+                return None;
+            }
+            body.extend_from_slice(&tmp[..n]);
+        }
+        body.truncate(len);
+        resp.body = body;
+        resp.well_formed = true;
+        Some(resp)
+    }
+}
+
+fn tls_req(rng: &mut Rng, label: &str) -> Req {
+    let n = nonce(rng);
+    Req {
+        ep: "tls",
+        method: "GET",
+        target: format!("/tls/{}", n).into_bytes(),
+        ct: None,
+        framing: Framing::None,
+        payload: vec![],
+        meta: label.to_string(),
+        sent_canon: String::new(),
+        nonce: n,
+    }
+}
+
+fn emit_tls(out: &mut Out, id: &mut u64, rq: &Req, local: std::net::SocketAddr, resp: Option<RawResponse>) -> bool {
+    // the port is only meaningful with the loopback address the test uses
+    let port = if local.ip() == std::net::IpAddr::V4(std::net::Ipv4Addr::LOCALHOST) { local.port() } else { 0 };
+    emit(out, "tl", id, rq, Answer { port, resp, resent: 0 }, None)
+}
+
+fn permutations(k: usize) -> Vec<Vec<usize>> {
+    fn go(cur: &mut Vec<usize>, used: &mut Vec<bool>, k: usize, acc: &mut Vec<Vec<usize>>) {
+        if cur.len() == k {
+            acc.push(cur.clone());
+            return;
+        }
+        for i in 0..k {
+            if !used[i] {
+                used[i] = true;
+                cur.push(i);
+                go(cur, used, k, acc);
+                cur.pop();
+                used[i] = false;
+            }
+        }
+    }
+    let mut acc = Vec::new();
+    go(&mut Vec::new(), &mut vec![false; k], k, &mut acc);
+    acc
+}
+
+/// `k` clients connect in the order 0..k and finish (handshake, request,
+/// answer) in the order `finish`; a client overtaken by a later one waits at
+/// a stage picked by `rng`.  Everything is sequenced from this one thread: a
+/// client does nothing between its stage and its turn.
+fn tls_scenario(out: &mut Out, id: &mut u64, rng: &mut Rng, addr: std::net::SocketAddr, cfg: &std::sync::Arc<rustls::ClientConfig>, finish: &[usize]) -> (usize, usize) {
+    use tls::Stage;
+    let k = finish.len();
+    let pos_of = |c: usize| finish.iter().position(|x| *x == c).unwrap();
+    let mut clients: Vec<Option<tls::Client>> = Vec::new();
+    let mut stages: Vec<Stage> = Vec::new();
+    for c in 0..k {
+        let overtaken = (c + 1..k).any(|later| pos_of(later) < pos_of(c));
+        let stage = if overtaken {
+            *rng.pick(&[Stage::BeforeHello, Stage::HelloSent, Stage::ServerFlightRead])
+        } else if rng.chance(1, 4) {
+            Stage::HelloSent
+        } else {
+            Stage::Plain
+        };
+        let mut cl = tls::Client::connect(addr);
+        if let Some(c) = cl.as_mut() {
+            if !c.advance_to(cfg, stage) {
+                cl = None;
+            }
+        }
+        clients.push(cl);
+        stages.push(stage);
+    }
+    let perm: String = finish.iter().map(|x| x.to_string()).collect();
+    let (mut sent, mut ok) = (0, 0);
+    for (turn, c) in finish.iter().enumerate() {
+        let overtaken = (c + 1..k).any(|later| pos_of(later) < pos_of(*c));
+        let role = match (overtaken, stages[*c]) {
+            (false, _) => "inorder",
+            (true, Stage::BeforeHello) => "stalled-before-hello",
+            (true, _) => "stalled-mid-handshake",
+        };
+        let fin = if turn == 0 { "first" } else if turn + 1 == k { "last" } else { "middle" };
+        let rq = tls_req(rng, &format!("{}.{}.k{}p{}c{}", role, fin, k, perm, c));
+        sent += 1;
+        let (local, resp) = match clients[*c].as_mut() {
+            Some(cl) => (cl.local, cl.request(cfg, &rq.wire())),
+            None => ("0.0.0.0:0".parse().unwrap(), None),
+        };
+        if emit_tls(out, id, &rq, local, resp) {
+            ok += 1;
+        }
+    }
+    (sent, ok)
+}
+
+fn tls_stream(out: &mut Out, id: &mut u64, rt: &tokio::runtime::Runtime, mult: usize) {
+    let (cert, key) = tls::self_signed();
+    let ctx = SrvCtx::new();
+    let server = rt.block_on(async {
+        let config = dropshot::ConfigDropshot {
+            bind_address: "127.0.0.1:0".parse().unwrap(),
+            default_request_body_max_bytes: BODY_CAP,
+            default_handler_task_mode: dropshot::HandlerTaskMode::Detached,
+            log_headers: vec![],
+        };
+        dropshot::ServerBuilder::new(make_api(), ctx.clone(), discard_log())
+            .config(config)
+            .tls(Some(dropshot::ConfigTls::AsBytes { certs: cert, key }))
+            .start()
+            .expect("TLS server starts")
+    });
+    let addr = server.local_addr();
+    let cfg = tls::client_config();
+    let t0 = std::time::Instant::now();
+    let mut rng = Rng::from_env(609);
+    let (mut sent, mut ok) = (0usize, 0usize);
+
+    // control: sequential connections
+    for _ in 0..(20 * mult) {
+        let rq = tls_req(&mut rng, "sequential.only.k1");
+        sent += 1;
+        let (local, resp) = match tls::Client::connect(addr) {
+            Some(mut c) => (c.local, c.request(&cfg, &rq.wire())),
+            None => ("0.0.0.0:0".parse().unwrap(), None),
+        };
+        if emit_tls(out, id, &rq, local, resp) {
+            ok += 1;
+        }
+    }
+    if std::env::var("VERIF_TIMING").is_ok() {
+        eprintln!("sequential done after {:?}", t0.elapsed());
+    }
+    // control: keep-alive reuse, two connections alternating
+    for _ in 0..(5 * mult) {
+        let mut a = tls::Client::connect(addr);
+        let mut b = tls::Client::connect(addr);
+        for i in 0..6 {
+            let which = if i % 2 == 0 { &mut a } else { &mut b };
+            let rq = tls_req(&mut rng, &format!("keepalive.r{}.k2", i / 2));
+            sent += 1;
+            let (local, resp) = match which.as_mut() {
+                Some(c) => (c.local, c.request(&cfg, &rq.wire())),
+                None => ("0.0.0.0:0".parse().unwrap(), None),
+            };
+            if emit_tls(out, id, &rq, local, resp) {
+                ok += 1;
+            }
+        }
+    }
+    if std::env::var("VERIF_TIMING").is_ok() {
+        eprintln!("keepalive done after {:?}", t0.elapsed());
+    }
+    // stalled handshakes: every finishing order for 2..4 connections, chosen ones for 5..8
+    for _round in 0..mult {
+        for k in 2..=8usize {
+            let mut orders: Vec<Vec<usize>> = if k <= 4 {
+                permutations(k)
+            } else {
+                let ident: Vec<usize> = (0..k).collect();
+                let mut rev = ident.clone();
+                rev.reverse();
+                let mut rot = ident.clone();
+                rot.rotate_left(1); // the first connection finishes last
+                let mut rot2 = ident.clone();
+                rot2.rotate_right(1); // the last connection finishes first
+                let mut mid = ident.clone();
+                let m = mid.remove(0);
+                mid.insert(k / 2, m); // the first connection finishes in the middle
+                vec![ident, rev, rot, rot2, mid]
+            };
+            if k > 4 {
+                for _ in 0..4 {
+                    let mut p: Vec<usize> = (0..k).collect();
+                    for i in (1..k).rev() {
+                        let j = rng.below(i as u64 + 1) as usize;
+                        p.swap(i, j);
+                    }
+                    orders.push(p);
+                }
+            }
+            for o in orders {
+                let (s, g) = tls_scenario(out, id, &mut rng, addr, &cfg, &o);
+                sent += s;
+                ok += g;
+            }
+        }
+    }
+    if std::env::var("VERIF_TIMING").is_ok() {
+        eprintln!("stalled done after {:?}", t0.elapsed());
+    }
+    // simultaneous: threads released together
+    for n in [2usize, 8, 16] {
+        for _ in 0..(2 * mult) {
+            let barrier = std::sync::Arc::new(std::sync::Barrier::new(n));
+            let reqs: Vec<Req> = (0..n).map(|i| tls_req(&mut rng, &format!("threads.t{}.k{}", i, n))).collect();
+            let handles: Vec<_> = reqs
+                .into_iter()
+                .map(|rq| {
+                    let barrier = barrier.clone();
+                    let cfg = cfg.clone();
+                    std::thread::spawn(move || {
+                        barrier.wait();
+                        let r = match tls::Client::connect(addr) {
+                            Some(mut c) => (c.local, c.request(&cfg, &rq.wire())),
+                            None => ("0.0.0.0:0".parse().unwrap(), None),
+                        };
+                        (rq, r.0, r.1)
+                    })
+                })
+                .collect();
+            for h in handles {
+                let (rq, local, resp) = h.join().expect("tls client thread");
+                sent += 1;
+                if emit_tls(out, id, &rq, local, resp) {
+                    ok += 1;
+                }
+            }
+        }
+    }
+    *id += 1;
+    out.line(&format!("ct {} {} {} => {}", id, sent, ok, ctx.count("tls")));
+    out.flush();
+    if std::env::var("VERIF_TIMING").is_ok() {
+        eprintln!("tls clients done after {:?}", t0.elapsed());
+    }
+    rt.block_on(async {
+        let _ = server.close().await;
+    });
+    if std::env::var("VERIF_TIMING").is_ok() {
+        eprintln!("tls server closed after {:?}", t0.elapsed());
+    }
+}
+
 fn main() {
     quiet_panics();
     let mut out = Out::new();
@@ -808,4 +1222,5 @@ fn main() {
     rt.block_on(async {
         let _ = server.close().await;
     });
+    tls_stream(&mut out, &mut id, &rt, mult);
 }
